@@ -672,6 +672,12 @@ func init() {
 		runtime.GOMAXPROCS(runtime.NumCPU())
 		st2.End()
 
+		// ---------- stage "histories": results retained across calls (c12_hist.go) ----------
+		// (before the model comparisons: the report keeps the first 40 findings, failing inputs must not be crowded out by diffs)
+		if err := c12Histories(c); err != nil {
+			return err
+		}
+
 		// ---------- stage 3: Close delivers everything; unknown type; mediatype selection ----------
 		st3 := c.R.StartStage("close-and-middleware", "late-writing failing minifier / invalid input / unknown media type through m.Writer and m.ResponseWriter: output complete and error returned at the moment Close returns; middleware: stub minifiers per media type, Content-Type x path extension x Content-Length: minifier chosen = Content-Type if non-empty else extension type, Content-Length deleted, other headers kept; compared with model.c12.pick / model.c12.whdr")
 		for i := 0; i < c.N(40, 400); i++ {
@@ -696,11 +702,17 @@ func init() {
 				c.R.Add(h.Finding{Stage: st3.Name, Kind: "crash", What: via + ": " + crash, Input: key})
 				continue
 			}
-			if want := "partial:" + strconv.Itoa(len(input)); string(out) != want {
+			want, wantErr := "partial:"+strconv.Itoa(len(input)), errBoom
+			if via == "m.ResponseWriter" && len(chunks) == 0 {
+				// a response without any Write never selects a minifier (lazy selection on the first Write, see docs/C12.md):
+				// nothing is written and Close reports nothing — the stub's output for empty input is not owed
+				want, wantErr = "", nil
+			}
+			if string(out) != want {
 				c.R.Add(h.Finding{Stage: st3.Name, Kind: "fail", What: via + ": output incomplete when Close returned", Input: key, Impl: h.Q(out), Model: want})
 			}
-			if cerr != errBoom {
-				c.R.Add(h.Finding{Stage: st3.Name, Kind: "fail", What: via + ": Close did not return the minifier's error", Input: key, Impl: errText(cerr), Model: "boom"})
+			if cerr != wantErr {
+				c.R.Add(h.Finding{Stage: st3.Name, Kind: "fail", What: via + ": Close did not return the minifier's error", Input: key, Impl: errText(cerr), Model: errText(wantErr)})
 			}
 		}
 		// middleware media type selection with stub minifiers
@@ -765,9 +777,11 @@ func init() {
 		if err != nil {
 			return err
 		}
+		ndiff := 0
 		for i, mw := range mws {
 			b, ok, msg := h.DecodeReply(rep[i])
-			if !ok || string(b) != mw.got {
+			if (!ok || string(b) != mw.got) && ndiff < 6 {
+				ndiff++
 				c.R.Add(h.Finding{Stage: st3.Name, Kind: "diff", What: "model.c12.pick differs from the reference rule " + msg, Input: mw.key, Impl: mw.got, Model: string(b)})
 			}
 		}
@@ -795,7 +809,7 @@ func init() {
 		if err != nil {
 			return err
 		}
-		nrej := 0
+		nrej, nbdiff := 0, 0
 		for i, t := range all {
 			st4.Count(t.key, len(tl[i]) > 200)
 			b, ok, msg := h.DecodeReply(rep2[i])
@@ -803,7 +817,8 @@ func init() {
 				parts := h.DecodeListReply(b)
 				var wantB, wantE string
 				fmt.Sscanf(extra[i], "%s %s", &wantB, &wantE)
-				if !ok || len(parts) != 2 || h.Hex(parts[0]) != wantB || string(parts[1]) != wantE {
+				if (!ok || len(parts) != 2 || h.Hex(parts[0]) != wantB || string(parts[1]) != wantE) && nbdiff < 6 {
+					nbdiff++
 					c.R.Add(h.Finding{Stage: st4.Name, Kind: "diff", What: "model.c12.bytes differs from m.Bytes " + msg, Input: t.key})
 				}
 				continue
